@@ -133,7 +133,13 @@ def GI_trans(s, cx):
         Implies(TD.has_src(T.a[j]), And(G.adj(TD.src(T.a[j]), TD.tgt(T.a[j])), stv[TD.src(T.a[j])] != SC('S'),
                                         so.xr_le(so.xr_fin(TD.time(T.a[j])), s.rec_time.val[TD.src(T.a[j])]))))))
     c.append(so.forall_idx(T.n - 1, lambda j: TD.time(T.a[j]) <= TD.time(T.a[j + 1])))
-    c.append(so.forall_idx(T.n, lambda j: so.forall_idx(T.n, lambda j2: Implies(j != j2, TD.tgt(T.a[j]) != TD.tgt(T.a[j2])))))
+    # every node is the target of at most one entry (=> in-degree <= 1 in the transmission tree): stated through an
+    # index function  tidx(target of entry j) = j  (ghost map; existentially quantified where no ghost variable exists)
+    inj = lambda a: so.forall_idx(T.n, lambda j: a[TD.tgt(T.a[j])] == j)
+    if s.has('tidx'):
+        c.append(inj(s.tidx.val))
+    else:
+        c.append(so.exists(z3.ArraySort(so.U(), I), inj))
     return And(*c)
 
 
@@ -154,7 +160,7 @@ def lemma_params():
                 status=T.dict_of('U', 'Status', default=lambda: SC('S')),
                 rec_time=T.dict_of('U', 'XR', default=lambda: so.xr_fin(fresh('tmin_minus_1', R))),
                 pred_inf_time=T.dict_of('U', 'XR', default=lambda: so.xr_inf()),
-                transmissions=T.list_of(H.TR),
+                transmissions=T.list_of(H.TR), tidx=T.dict_of('U', 'I'),
                 trans_and_rec_time_fxn=lambda run, name, **kw: H.joint_delay_callback(run),
                 trans_and_rec_time_args=T.const((PyConst('user-arg-0'),)))
 
@@ -184,10 +190,22 @@ def step_body(run, env):
         run.call_contract('_process_rec_SIR_', [t, D.tgt(ev), env['times'], env['S'], env['I'], env['R'], env['status']], {}, 0)
         return
     if run.branch(kind == K_TRANS):
+        # intermediate cut: a susceptible target has no earlier entry in the transmission list
+        T = env['transmissions']
+        TDt = T.esort.D
+        tgt0 = D.tgt(ev)
+        cut2 = Implies(env['status'].val[tgt0] == SC('S'), so.forall_idx(T.n, lambda j: TDt.tgt(T.a[j]) != tgt0))
+        run.oblige('lemma', 'cut:susceptible-target-not-yet-in-transmissions', 0, cut2)
+        run.assume(cut2)
         src = D.src(ev) if run.branch(D.has_src(ev)) else NONE
+        was_S = env['status'].val[tgt0] == SC('S')
+        n_before = T.n
         run.call_contract('_process_trans_SIR_', [t, env['G'], src, D.tgt(ev), env['times'], env['S'], env['I'], env['R'],
                                                   Q, env['status'], env['rec_time'], env['pred_inf_time'], env['transmissions'],
                                                   env['trans_and_rec_time_fxn'], env['trans_and_rec_time_args']], {}, 0)
+        # ghost update: the new entry (if any) is the one and only entry of its target
+        ti = env['tidx']
+        ti.val = If(was_S, z3.Store(ti.val, tgt0, n_before), ti.val)
         return
     run.oblige('safety', 'event-kind-known', 0, BoolVal(False))
 
